@@ -354,11 +354,11 @@ class AbsEval(ConstEval):
     def regex_call(self, pattern, method, args):
         """Python's re applied to a constant pattern of the program and a concrete string: the match as an abstract object"""
         import re
-        if len(args) != 1 or not isinstance(args[0], str):
+        if not args or not isinstance(args[0], str) or len(args) > 3 or not all(isinstance(a, int) and not isinstance(a, bool) for a in args[1:]):
             if args and (args[0] is None or isinstance(args[0], (int, float, AObj))):
                 raise AbsRaise("TypeError", "expected string")
             raise NotConstant("regex applied to a non-concrete string")
-        m = getattr(re.compile(pattern), method)(args[0])
+        m = getattr(re.compile(pattern), method)(*args)
         if m is None:
             return None
 
